@@ -43,6 +43,16 @@ theorem C15_fact_update_coverage :
     subset (configConnectorFields) createConnectorActionFields = true ∧
     subset (configProcessorFields) createProcessorActionFields = true := by decide
 
+/-- position kept on the update path: the three connector-service methods the import's
+`updateConnectorAction` calls (`Update` — also for a *plugin* change, `Plugin` being a mutable
+field —, `AddProcessor`, `RemoveProcessor`) assign only Plugin / Config / UpdatedAt /
+ProcessorIDs, never `State` (nor `Type`): what `svcCnUpdate`, `svcCnAddProc`, `svcCnRemProc`
+of the model do, and what `C15_position_kept` rests on. -/
+theorem C15_fact_update_keeps_state :
+    subset connectorUpdateAssigns ["Plugin", "Config", "UpdatedAt"] = true ∧
+    subset connectorAddProcessorAssigns ["ProcessorIDs", "UpdatedAt"] = true ∧
+    subset connectorRemoveProcessorAssigns ["ProcessorIDs", "UpdatedAt"] = true := by decide
+
 /-- the remove loop of `updateConnectorAction.update` ranges over the live slice iff the model
 simulates the aliasing (F5). -/
 theorem C15_fact_remove_loop : updConnCopies = (updConnRemoveRange != "c.ProcessorIDs") := by decide
